@@ -254,6 +254,11 @@ class FileNodeHandler(Resource, ReplaceMeMixin, object):
         t = get_arg(req, b"t", b"").strip()
         if t:
             raise WebError("HEAD file: bad t=%s" % t)
+        if not self.node.is_mutable():
+            # send the same ETag as the corresponding GET would
+            si = self.node.get_storage_index()
+            if si and req.setETag(b'%s-' % base32.b2a(si)):
+                return b""
         filename = get_arg(req, b"filename", self.name) or "unknown"
         d = self.node.get_best_readable_version()
         d.addCallback(lambda dn: FileDownloader(dn, filename))
